@@ -210,4 +210,11 @@ def adjacent : List FileInfo → Bool
 def filesWFB (fs : List FileInfo) : Bool :=
   fs.all (fun f => decide (1 ≤ f.min) && decide (f.min ≤ f.max) && (f.level != snapshotLevel || f.min == 1))
 
+/-- Executable form of `AddOK` (checked by the engine on every file the real code adds). -/
+def addOKB (g : FileInfo) (r : List FileInfo) (n : Nat) : Bool :=
+  decide (1 ≤ g.min) && decide (g.min ≤ g.max) && decide (g.level ≤ snapshotLevel) &&
+  (g.level != snapshotLevel || g.min == 1) && decide (g.min ≤ n + 1) &&
+  (g.level != 1 || decide (g.min ≤ maxL1 r + 1))
+
+
 end Litestream
